@@ -96,13 +96,14 @@ theorem efrag_removeScopes (Γ : Env) (σ : AState) (hσ : σ.wf = true) :
     have := sfrag_of_e (efrag_seq_s one ih)
     simpa [List.replicate_succ] using this
 
-/-- the self tail-call sequence behind the operands: `prepareCall; removeScope × (scopes+1); goto 0` -/
+/-- the self tail-call sequence behind the operands: `prepareCall; removeScope × (scopes+1); goto 0`;
+nothing falls through, `τ` (the annotation behind the jump) is arbitrary -/
 theorem efrag_tailcall (Γ : Env) (T : List LoopRec) (h : String) (n scopes : Nat) (σ : AState) (fo : FnObj)
     (hσ : σ.wf = true) (hfr : σ.frames = []) (hb : σ.base = 0) (hk : σ.k = scopes + 1)
     (hside : ∀ F A, Γ.side F A →
       annAt A 0 = some ⟨0, [], fo.nargs + (if fo.varargs then 1 else 0)⟩ ∧ F.varargs = fo.varargs ∧ F.nfixed = fo.nargs)
-    (har : if fo.varargs then fo.nargs ≤ n else n = fo.nargs) :
-    ExprFrag Γ (B T ([.prepareCall h n] ++ List.replicate (scopes + 1) .removeScope ++ [.goto 0])) (bump σ n) (bump σ 1) := by
+    (har : if fo.varargs then fo.nargs ≤ n else n = fo.nargs) (τ : AState) (hτ : τ.wf = true) :
+    ExprFrag Γ (B T ([.prepareCall h n] ++ List.replicate (scopes + 1) .removeScope ++ [.goto 0])) (bump σ n) τ := by
   obtain ⟨k, frames, base⟩ := σ
   simp only at hfr hb hk
   subst hfr hb hk
@@ -137,8 +138,8 @@ theorem efrag_tailcall (Γ : Env) (T : List LoopRec) (h : String) (n scopes : Na
       = ⟨scopes + 1, [], fo.nargs + (if fo.varargs then 1 else 0)⟩ := by simp [deeper]
   rw [hd] at p2
   -- goto 0
-  have p3 : ExprFrag Γ [BInstr.goto 0] ⟨0, [], fo.nargs + (if fo.varargs then 1 else 0)⟩ ⟨scopes + 1, [], 1⟩ := by
-    apply efrag_instr Γ _ _ _ (hw _ _) (hw _ _)
+  have p3 : ExprFrag Γ [BInstr.goto 0] ⟨0, [], fo.nargs + (if fo.varargs then 1 else 0)⟩ τ := by
+    apply efrag_instr Γ _ _ _ (hw _ _) hτ
     intro F A L hp henv
     obtain ⟨h0, _, _⟩ := hside F A henv.1
     refine ⟨[(0, ⟨0, [], fo.nargs + (if fo.varargs then 1 else 0)⟩)], ?_, ?_⟩
